@@ -303,7 +303,7 @@ impl Engine for C14 {
                 "a spawned task gets its own logical thread (the most permissive executor: it cannot manufacture deadlocks that only a too small pool would have)",
             ],
             shrink: vec!["/threads"],
-            quick: (800, 170),
+            quick: (3000, 170),
             thorough: (30000, 1100),
         }
     }
